@@ -511,8 +511,38 @@ def verify_fll_schema(run):
                        fn=f"importer.FllImporter.{imp_fn}", meta=RP("fll-structure")))
 
 
+def verify_is_close(run):
+    """Op.is_close(a, b) IS the library's comparison tolerance of the statement: |a - b| <= atol + rtol * |b| with the library settings (defaults read from
+    Settings.__init__, A-SET), NaN equal to NaN, infinities only to themselves.  The round-trip obligations above call the real helper to decide whether a
+    height / weight may be dropped; this contract fixes what the helper means."""
+    from pyvc.numexec import NumExec, Path as NPath
+    src = run.src
+    fq = "operation.Op.is_close"
+    fn = src.func("operation", "Operation.is_close")
+    run.under_contract("operation", "Operation.is_close", fn)
+    rp = {"replay": {"module": "contracts.settings_native", "func": "replay_is_close", "kwargs": {}, "vars": {"a": "a", "b": "b"}}}
+    ax = xr.Ax()
+    ex = NumExec(src, "operation", ax)
+    a, ca = xr.sym("a"); b, cb = xr.sym("b")
+    try:
+        r = ex.boo(ex.ev(NPath({"a": Num(a, False, True), "b": Num(b, False, True)}, []), ast.parse("Op.is_close(a, b)").body[0].value)).b
+        atol, rtol = ex.setting("atol", fn), ex.setting("rtol", fn)
+    except Unsupported as ex_:
+        run.add(undecided(f"{fq}/subset", f"outside the verified subset: {ex_}", fn=fq, meta=rp)); return
+    fin = z3.And(xr.fin(a), xr.fin(b))
+    spec_fin = xr.le(xr.xabs(xr.sub(a, b)), xr.add(xr.const(float(atol)), xr.mul(xr.const(float(rtol)), xr.xabs(b))))
+    run.add(Obl(f"{fq}/ensures.library_tolerance_on_finite_operands", [ca, cb, fin] + ax.axioms(), r == spec_fin, fn=fq, meta=rp))
+    run.add(Obl(f"{fq}/ensures.nan_equals_nan_and_infinities_only_themselves", [ca, cb, z3.Not(fin)] + ax.axioms(),
+                r == z3.If(z3.Or(a.nan, b.nan), z3.And(a.nan, b.nan), xr.eq(a, b)), fn=fq, meta=rp))
+    run.add(static(f"{fq}/default_tolerances", float(atol) > 0 and float(rtol) >= 0, f"atol = {atol}, rtol = {rtol} (defaults of Settings.__init__)", fn=fq))
+
+
 def build(run):
     run.assume("A-FMT", "A-STR", "A-SET", "A-PY", "A-MSG", "A-NP")
+    try:
+        verify_is_close(run)
+    except NotFound as ex_:
+        run.add(static("operation.Op.is_close/exists", False, str(ex_)))
     src = run.src
     terms = [c for c in src.subclasses("term", "Term")]
     for c in terms:
